@@ -58,6 +58,22 @@ def module_tree(rel):
     return source.load_py(rel)[1], {}
 
 
+def context_hash(tree, qualname):
+    """module-level constants and the class-level assignments of the function's class: obligations depend on
+    them although they are outside the function text"""
+    import ast, hashlib
+    parts = []
+    cls = qualname.split('.')[0] if '.' in qualname else None
+    for n in tree.body:
+        if isinstance(n, ast.Assign):
+            parts.append(ast.dump(n))
+        elif isinstance(n, ast.ClassDef) and n.name == cls:
+            for m in n.body:
+                if isinstance(m, ast.Assign):
+                    parts.append(ast.dump(m))
+    return hashlib.sha256('\n'.join(parts).encode()).hexdigest()[:8]
+
+
 def verify_contract(c):
     """-> (obligations, meta) ; raises EngineError when outside the subset"""
     from .world import World
@@ -69,7 +85,8 @@ def verify_contract(c):
     world = factory(c.rel, tree, REGISTRY, ctypes)
     eng = Exec(c.rel, tree, REGISTRY, ctypes, world)
     obs = eng.verify(c, fnode)
-    meta = {'hash': source.norm_hash(fnode), 'inlined': sorted(eng.inlined), 'callees': sorted(eng.used_contracts),
+    meta = {'hash': source.norm_hash(fnode) + '.' + context_hash(tree, c.qualname), 'inlined': sorted(eng.inlined),
+            'callees': sorted(eng.used_contracts),
             'assumed': sorted(world.used), 'paths': eng.stats['paths']}
     for key in eng.inlined:
         rel2, q2 = key.split('::')
@@ -77,6 +94,12 @@ def verify_contract(c):
         f2 = source.find_function(t2, q2)
         meta['hash'] += '+' + (source.norm_hash(f2) if f2 is not None else '?')
     return obs, meta
+
+
+def noline(name):
+    """obligation name without its @L<line> suffix: line numbers shift when code above is edited"""
+    import re
+    return re.sub(r'@L\d+$', '', name)
 
 
 def baseline():
@@ -239,7 +262,7 @@ def run_property(rep, pid, budget_s=None):
             rep.trust(t)
     rep.pending_failed = getattr(rep, 'pending_failed', []) + [
         {'key': key, 'name': a['name'], 'status': a['status'], 'model': a['model'], 'reason': a['reason'],
-         'hash': meta['hash'], 'baseline': base.get(a['name'])} for key, a, meta in failed]
+         'hash': meta['hash'], 'baseline': base.get(noline(a['name']))} for key, a, meta in failed]
     return res
 
 
@@ -249,7 +272,7 @@ def write_baseline(pids=None):
     keys = [k for k, c in REGISTRY.items() if not c.inline and c.kind != 'assumed'
             and (pids is None or set(pids) & set(c.props))]
     res = prove_contracts(keys, budget_s=30.0)
-    base = baseline()
+    base = {} if pids is None else baseline()
     for key in keys:
         r = res[key]
         if r['error']:
@@ -257,7 +280,7 @@ def write_baseline(pids=None):
             continue
         for a in aggregate(r['obligations']):
             if a['status'] == 'proved':
-                base[a['name']] = {'hash': r['meta']['hash'], 'solver': '+'.join(sorted(a['solver']))}
+                base[noline(a['name'])] = {'hash': r['meta']['hash'], 'solver': '+'.join(sorted(a['solver']))}
             else:
                 print('NOT PROVED', a['name'], a['status'])
     with open(BASELINE, 'w') as fh:
